@@ -8,6 +8,7 @@ Static rules over the resolved program (clang front end facts; no FEAT3 code is 
  * E13.cycle-dispatch   apply() maps MultiGridCycle::X to _apply_cycle_x
  * E7.hand-over         rhs(top) := vec_def before the cycle, vec_cor := sol(top) after it, vec_def const
  * E1.level-roles       every operation on level objects uses the vectors/operators of the right level and role
+ * E7.solver-registration every solver the helpers may apply is registered for init/done on every level, unconditionally
  * E1.level-setup-roles push_level argument -> MultiGridLevelStd ctor parameter -> member -> getter keep their role (pre/post/peak/…)
  * E8.def-fresh / E7.filter-def / E7.filter-cor / E7.filter-rhs / E8.sol-epoch
                         freshness typestate of def = rhs - A*sol and of sol per level, summary based
@@ -753,6 +754,93 @@ def check_level_setup(ck, facts, hier_cls, fns_h, sc):
 
 
 # -------------------------------------------------------------------------------------------------
+# solver registration: every solver the helpers may apply is registered for init/done on every level
+# -------------------------------------------------------------------------------------------------
+
+def check_solver_registration(ck, facts, hier_cls, used_kinds, sc):
+    """LevelInfo::init_symbolic registers (unique_solvers) the result of every get_smoother_* / get_coarse_solver getter whose
+    solver an _apply_* helper may apply, on every path (not depending on the position of the level), and the four
+    init/done functions of LevelInfo forward to every registered solver"""
+    rule = "E7.solver-registration"
+    li_cls = hier_cls + "::LevelInfo"
+    fns = {f.name: f for f in facts.functions if f.tk != "pattern" and f.cls == li_cls}
+    inst = sc.replace("MultiGrid<", "MultiGridHierarchy<") + "::LevelInfo"
+    if "init_symbolic" not in fns:
+        ck.incomplete(rule, "%s: init_symbolic not instantiated" % inst)
+        return
+    f = fns["init_symbolic"]
+    view = FnView(f)
+
+    def getter_kind(n, depth=0):
+        n = view.value(n)
+        if depth > 8:
+            return None
+        if n.get("k") == "MCall" and n.get("n") in mgmodel.SMOOTHER_GETTERS:
+            return mgmodel.SMOOTHER_GETTERS[n["n"]]
+        if n.get("k") == "MCall" and n.get("n") == "get" and n.get("obj") is not None:
+            return getter_kind(n["obj"], depth + 1)
+        if n.get("k") == "OpCall" and n.get("op") in ("->", "*") and n.get("a"):
+            return getter_kind(n["a"][0], depth + 1)
+        if n.get("k") in ("Construct", "TempObj") and len(n.get("a", [])) == 1:
+            return getter_kind(n["a"][0], depth + 1)
+        return None
+    pushes = {}
+    unresolved = []
+    for e in [e for b in view.cfg.blocks.values() for e in b["el"]]:
+        n = view.byid.get(e)
+        if n and n.get("k") == "MCall" and n.get("n") == "_push_solver" and n.get("a"):
+            k = getter_kind(n["a"][0])
+            if k is None:
+                unresolved.append(render(n)[:70])
+            else:
+                pushes.setdefault(k, []).append(e)
+        elif n and n.get("k") == "MCall" and n.get("n") in ("push_back", "emplace_back", "insert") and mgmodel.is_this_member(n.get("obj") or {}, "unique_solvers"):
+            k = getter_kind(n["a"][0]) if n.get("a") else None
+            if k is None:
+                unresolved.append(render(n)[:70])
+            else:
+                pushes.setdefault(k, []).append(e)
+    for kind in sorted(used_kinds):
+        key = "%s::init_symbolic/%s" % (inst, kind)
+        ids = pushes.get(kind, [])
+        escapes = view.flow_from(None, stop=set(ids))[1] if ids else True
+        if escapes and unresolved:
+            ck.incomplete(rule, "%s: registration of the %s solver not found on every path, but %s registers a solver that could not be resolved to a getter" % (key, kind, unresolved[0]))
+            continue
+        ck.ob(rule, key, not escapes,
+              "the %s solver of the level is registered in unique_solvers on every path" % kind if not escapes else
+              ("the %s solver is registered only on some paths of init_symbolic() (conditionally on the level), but the multigrid helpers apply get_%s of whatever level plays that role: "
+               "a solver that is never init_symbolic/init_numeric-ed is applied" % (kind, {"coarse": "coarse_solver()"}.get(kind, "smoother_%s()" % kind)) if ids else
+               "the %s solver is never registered in unique_solvers although the multigrid helpers apply it" % kind), f.file, (view.byid[ids[0]].get("l") if ids else f.line))
+    # propagation loops
+    for nm in ("init_symbolic", "init_numeric", "done_numeric", "done_symbolic"):
+        g = fns.get(nm)
+        key = "%s::%s/forwards" % (inst, nm)
+        if g is None:
+            ck.incomplete(rule, "%s: function not instantiated" % key)
+            continue
+        gv = FnView(g)
+        found = wrong = None
+        for lp in walk(g.body):
+            if lp.get("k") not in ("For", "ForRange", "While"):
+                continue
+            if not any(mgmodel.is_this_member(x, "unique_solvers") for x in walk(lp) if x.get("k") == "Member"):
+                continue
+            for x in walk(lp.get("body") or {}):
+                if x.get("k") == "MCall" and x.get("obj") is not None and strip(x["obj"]).get("k") != "This" and x.get("n") in ("init_symbolic", "init_numeric", "done_numeric", "done_symbolic"):
+                    if x["n"] == nm:
+                        found = x
+                    else:
+                        wrong = x
+        if found is None and wrong is None:
+            ck.incomplete(rule, "%s: no loop over unique_solvers calling a solver's %s() found" % (key, nm))
+            continue
+        ck.ob(rule, key, found is not None and wrong is None,
+              "every registered solver gets %s()" % nm if found is not None and wrong is None else "the loop over the registered solvers calls %s() instead of %s()" % (wrong.get("n"), nm),
+              g.file, (found or wrong).get("l"))
+
+
+# -------------------------------------------------------------------------------------------------
 # apply(): dispatch and hand-over
 # -------------------------------------------------------------------------------------------------
 
@@ -1048,6 +1136,7 @@ def run(tier):
     ck.rule("E7.hand-over", "vec_def is copied into the top-level rhs before every cycle call, the top-level solution is copied into vec_cor on every normal exit after the cycle, vec_def is const; breaks for every input", 3)
     ck.rule("E1.level-roles", "every call on level objects (matrix, filter, transfer, smoother, level vectors) uses operands of the right level and role: def := rhs - A sol, rest(def@l -> rhs@l+1), prol(sol@l+1 -> cor@l), filter_def on dual and filter_cor on primal vectors with the filter of the vector's own level, pre-smoother (sol,rhs), post/peak smoother (cor,def); breaks for every non-trivial hierarchy / non-trivial filter", 35)
     ck.rule("E1.level-setup-roles", "the object handed to MultiGridHierarchy::push_level as pre-/post-/peak-smoother, coarse solver, matrix, filter or transfer reaches the getter of the same role: push_level argument role == MultiGridLevelStd constructor parameter role at the same position (forwarding through make_shared/new is positional), constructor parameter role == initialised member role, member role == getter role (roles from the identifier tokens pre/post/peak/coarse|crs/matrix/filter/transfer|trans); breaks whenever post- and peak-smoother (or any two same-typed arguments) are different objects or one of them is null", 27)
+    ck.rule("E7.solver-registration", "producer/consumer agreement between solver registration and use: for every getter kind (pre, post, peak smoother, coarse solver) whose solver some _apply_* helper applies, MultiGridHierarchy::LevelInfo::init_symbolic registers that getter's solver in unique_solvers on every path (not conditional on the level's position), and LevelInfo::init_symbolic/init_numeric/done_numeric/done_symbolic each forward the same call to every registered solver; breaks for level sub-ranges whose coarse level is a refined level with its own coarse solver (never initialised, then applied)", 8)
     ck.rule("E8.def-fresh", "def == rhs - A*sol (fresh) at every smoother input, restriction and adaptive step-length product, for every cycle, level region, smoother presence combination and coarse-grid-correction mode; breaks when a smoother or the restriction sees a defect of an older iterate", 14)
     ck.rule("E7.filter-def", "every freshly computed defect is filter_def-ed before it is smoothed or restricted; breaks for any filter that is not the identity", 14)
     ck.rule("E7.filter-cor", "every prolongated correction (and the identity coarse solution) is filter_cor-ed before it is added to / used as a solution; breaks for any filter that is not the identity", 11)
@@ -1130,6 +1219,14 @@ def run(tier):
         # 4b. level set-up roles
         hier_cls = cls.replace("FEAT::Solver::MultiGrid<", "FEAT::Solver::MultiGridHierarchy<", 1)
         check_level_setup(ck, facts, hier_cls, None, sc)
+        used = set()
+        for fnm in ("_apply_rest", "_apply_prol", "_apply_coarse", "_apply_smooth_peak"):
+            for e, ev in events[fnm]:
+                if ev["kind"] == "smooth" and ev.get("smoother") and ev["smoother"][0] == "smo":
+                    used.add(ev["smoother"][2])
+                if ev["kind"] == "helper" and ev.get("smoother") and ev["smoother"][0] == "smo":
+                    used.add(ev["smoother"][2])
+        check_solver_registration(ck, facts, hier_cls, used, sc)
         # 5. freshness typestate (summaries of the helpers composed along the cycle CFGs)
         mgflow.check_flow(ck, sc, views, events, pvars)
 
